@@ -117,3 +117,22 @@ Proof.
   split; [apply (reach_Inv winit []); exists 100000000000; reflexivity|].
   splits; vm_compute; reflexivity.
 Qed.
+
+(** Non-vacuity of the interleaving theorems: from the state with listing 7 on offer and the
+    buckets 4 and 5, buyer 2's purchase goes through, and the resulting state is followed by a
+    sequence of two further successful calls (the seller withdraws the proceeds, the loser
+    withdraws the bucket). *)
+Definition wA : world := run winit (firstn 4 ops0).
+Example C03_interleaving_hyps_met :
+  exists s1 out s2,
+    Inv (market wA) /\
+    execute (oracle_of wA) (env_of wA) 2 [] (BuyListing 7 4) (market wA) = Ok (s1, out) /\
+    mreach s1 s2 /\ buckets s2 = [].
+Proof.
+  eexists _, _, _. split; [apply (reach_Inv winit (firstn 4 ops0)); exists 100000000000; reflexivity|].
+  split; [vm_compute; reflexivity|]. split.
+  - eapply (mr_step _ _ _ (oracle_of wA) (env_of wA) 3 [] (RemoveBucket 5)).
+    + eapply (mr_step _ _ _ (oracle_of wA) (env_of wA) 1 [] (RemoveBucket 4)); [apply mr_refl | vm_compute; reflexivity].
+    + vm_compute. reflexivity.
+  - reflexivity.
+Qed.
